@@ -135,13 +135,24 @@ def structures_utils_stubs():
     hn = register(Helper("su.norm", lambda v: real_norm(v), 1, 0, lambda v: [np.atleast_2d(real_norm_d(v))]))
     hu = register(Helper("su.unit", lambda v: real_unit(v), 1, 3, lambda v: [real_unit_d(v)]))
 
+    def _rot3(Q, v):
+        return np.array([sum((Q[i, j] * v[j] for j in range(3)), RF({})) for i in range(3)], dtype=object)
+
     def norm(vec, axis=None):
         if axis is None and _isobj(vec) and np.ndim(vec) == 1:
+            if FRAME[0] is not None and len(vec) == 3:
+                # rotation lemma (helper.structures_utils): norm(R v) == norm(v); the caller works in the frame rotated by
+                # R = FRAME[0][0]: the atom is expressed in the unrotated frame
+                return fun_vec(hn, [_rot3(FRAME[0][1], np.asarray(vec, dtype=object))])
             return fun_vec(hn, [vec])
         return real_norm(vec, axis=axis)
 
     def unit(vec):
         if _isobj(vec) and np.ndim(vec) == 1 and len(vec) == 3:
+            if FRAME[0] is not None:
+                # unit(R v) == R unit(v)
+                Q, Qt = FRAME[0]
+                return _rot3(Q, fun_vec(hu, [_rot3(Qt, np.asarray(vec, dtype=object))])).view(S.SymArray)
             return fun_vec(hu, [vec])
         return real_unit(vec)
 
